@@ -13,7 +13,7 @@ RULE = ("programs = loss kind (ODE / stationary 2-D with border / non-stationary
         "system) x optimizer (sgd, adam, chain(clip, adam(schedule))) x (n, batch) with b | n and b !| n, iteration "
         "counts crossing >= 2 epoch boundaries x auxiliary generators {none, parameter, observation, both} x "
         "tracked spec (none / equation parameter / network leaf) x resumed (solve(n1) then solve(n2) with the "
-        "returned parameters, optimizer state and generator) x verbosity (silent / the default printing path); non-trivial = a reshuffle happened inside the run "
+        "returned parameters, optimizer state and generator) x verbosity (silent / the default printing path) x a never-stopping validation module; non-trivial = a reshuffle happened inside the run "
         "and the loss history is not constant; distinct = distinct program descriptions")
 ASSUMPTIONS = [
     "the number p of batches solve() consumes before iteration 0 is not fixed by the statement: inferred in {0,1} from the "
@@ -24,9 +24,9 @@ ASSUMPTIONS = [
 ]
 TIMEOUT = {"quick": 1800, "thorough": 7200}
 MIN_COUNTERS = {"quick": {"programs_compared": 24, "iterations_compared": 200, "programs_with_reshuffle": 15,
-                          "programs_with_tracked_gradient": 6, "resumed_programs": 4, "programs_with_default_verbosity": 6, "programs_in_32bit_mode": 3},
+                          "programs_with_tracked_gradient": 6, "resumed_programs": 4, "programs_with_default_verbosity": 6, "programs_in_32bit_mode": 3, "programs_with_validation_module": 5},
                 "thorough": {"programs_compared": 200, "iterations_compared": 1500, "programs_with_reshuffle": 120,
-                             "programs_with_tracked_gradient": 50, "resumed_programs": 40, "programs_with_default_verbosity": 50, "programs_in_32bit_mode": 25}}
+                             "programs_with_tracked_gradient": 50, "resumed_programs": 40, "programs_with_default_verbosity": 50, "programs_in_32bit_mode": 25, "programs_with_validation_module": 40}}
 
 
 def gen_cases(tier, seed):
@@ -64,6 +64,8 @@ def gen_cases(tier, seed):
         prog["inf_placeholder"] = bool(kind in ("ode", "statio2", "nonstatio1") and k % 5 == 2)
         # solve's default is verbose=True (loss printed every print_loss_every iterations from inside the loop)
         prog["verbose"] = bool(k % 3 == 1)
+        # a validation module that never asks to stop must not change anything else (schedule/criterion itself: C19)
+        prog["validation"] = bool(k % 4 == 3)
         cases.append(dict(prog=prog, cost=2.0 + (1.0 if prog["resumed"] else 0.0), x64=bool(k % 6 != 5)))
     return cases
 
@@ -126,8 +128,12 @@ def compare(rec, out, ref, n, sig, label):
         import jax
         if len(jax.tree_util.tree_leaves(stored)) != 0:
             bad("tracked-params-not-empty", "nothing was tracked but stored_params holds arrays")
-    if crit is not None or best is not None:
-        bad("validation-outputs-without-validation", "validation outputs returned although no validation module was given")
+    if ref.get("crit") is None:
+        if crit is not None or best is not None:
+            bad("validation-outputs-without-validation", "validation outputs returned although no validation module was given")
+    else:
+        if crit is None or not np.allclose(np.asarray(crit), ref["crit"], rtol=RT, atol=AT):
+            bad("validation-criterion-history", "criterion history %s differs from the reference %s" % (crit, ref["crit"]))
     return ok_all
 
 
@@ -156,10 +162,19 @@ def run_case(case, rec):
     if prog.get("verbose"):
         rec.count("programs_with_default_verbosity")
 
+    val = None
+    if prog.get("validation"):
+        import jax.numpy as jnp
+        from .c19 import scripted_cls
+        K = 64
+        val = scripted_cls()(stops=jnp.zeros(K, bool), crits=jnp.asarray(3.0 + 0.5 * np.arange(K)), improves=jnp.zeros(K, bool),
+                             k=jnp.asarray(0), call_every=2)
+        rec.count("programs_with_validation_module")
+
     def run_solve(n_it, params, data, pdata, odata, opt_state):
         return guard.call(jinns.solve, n_iter=n_it, init_params=params, data=data, loss=P["loss"], optimizer=opt,
                           opt_state=opt_state, tracked_params=tracked, param_data=pdata, obs_data=odata,
-                          obs_batch_sharding=shard, **verb)
+                          obs_batch_sharding=shard, **verb, **({"validation": val} if val is not None else {}))
 
     vgc = {}
     out = run_solve(n, P["params"], P["data"], P["param_data"], P["obs_data"], None)
@@ -168,7 +183,7 @@ def run_case(case, rec):
     ref = None
     for p in primes:
         r = refloop.ref_loop(n, P["params"], P["data"], P["loss"], opt, param_data=P["param_data"], obs_data=P["obs_data"],
-                             tracked=tracked, prime=p, vg_cache=vgc)
+                             tracked=tracked, prime=p, vg_cache=vgc, validation=val)
         if np.allclose(np.asarray(out[1]), r["hist"], rtol=RT, atol=AT) or ref is None:
             if ref is None or np.allclose(np.asarray(out[1]), r["hist"], rtol=RT, atol=AT):
                 ref = r
@@ -201,7 +216,8 @@ def run_case(case, rec):
         # (unadvanced) objects, exactly what a user holding only the 9-tuple can do
         out2 = run_solve(n2, out[0], out[3], P["param_data"], P["obs_data"], out[5])
         ref2 = refloop.ref_loop(n2, ref["params"], ref["data"], P["loss"], opt, opt_state=ref["opt_state"],
-                                param_data=P["param_data"], obs_data=P["obs_data"], tracked=tracked, prime=pbest, vg_cache=vgc)
+                                param_data=P["param_data"], obs_data=P["obs_data"], tracked=tracked, prime=pbest, vg_cache=vgc,
+                                validation=val)
         rec.count("resumed_programs")
         rec.count("iterations_compared", n2)
         compare(rec, out2, ref2, n2, sig + "/resumed", label + " resumed +%d" % n2)
